@@ -6,6 +6,11 @@ META = {
  'stubs': [], 'assumes': ['image payload: ascending distinct non-zero hashes below theta'],
  'outside': ['std::istream path', 'corruption beyond the preamble', 'compressed (serial version 4) images with symbolic payload', 'families other than those listed in bounds'],
 }
+GENERIC = [('kll', 'serde_kll', 0, 8, 12), ('kll', 'serde_kll', 1, 12, 12), ('kll', 'serde_kll', 2, 40, 12), ('kll', 'serde_kll', 3, 44, 12),
+           ('req', 'serde_req', 0, 8, 12), ('req', 'serde_req', 1, 12, 12), ('req', 'serde_req', 2, 36, 12), ('req', 'serde_req', 3, 40, 12),
+           ('qs', 'serde_qs', 0, 8, 12), ('qs', 'serde_qs', 1, 28, 12), ('qs', 'serde_qs', 3, 36, 12),
+           ]
+GENERIC_THOROUGH = [('cm', 'serde_cm', 0, 16, 12), ('cm', 'serde_cm', 2, 72, 12), ('fi', 'serde_fi', 0, 8, 12), ('fi', 'serde_fi', 2, 64, 12)]
 def queries(tier):
     qs = []
     def size(kind, n, est):
@@ -30,4 +35,17 @@ def queries(tier):
                             defs={'KIND': kind, 'N': n, 'EST': est, 'M': 0, 'MODE': mode, 'CORRUPT': p}, unwind=6,
                             unwindset={'^(harness|put64|put32|w_cts_serialize|w_cts_make|verif_mem.*|verif_new.*)$': 70}, timeout=1500, native_vectors=50,
                             c_defs={'VERIF_NEW_CAPN': 8}, mem_gb=24))
+    # tdigest<double>: images written from the documented layout
+    for (nc, nb, single) in ((0, 0, 0), (1, 0, 1), (1, 1, 0), (0, 2, 0), (2, 3, 0)):
+        size = 8 if nc + nb == 0 else (16 if single else 32 + 16 * nc + 8 * nb)
+        for m in range(0, size + 1):
+            if tier == 'quick' and not (m % 8 == 0 or m >= size - 8 or m in (9, 15, 17, 31, 33)): continue
+            qs.append(Q(f'td_c{nc}_b{nb}_s{single}_trunc{m:03d}', 'serde_td', 'c11_td.c', defs={'NC': nc, 'NB': nb, 'SINGLE': single, 'M': m}, unwind=12,
+                        unwindset={'^harness$': 130, '^(verif_mem.*|verif_new.*|put64|put32)$': 260}, timeout=(200 if tier == 'quick' else 900), native_vectors=50, c_defs={'VERIF_NEW_CAPN': 250}, mem_gb=16))
+    # generic families: (fam, tu, nv, size) ; sizes recorded from the real serializer (asserted in the harness)
+    for (fam, tu, nv, size, unw) in (GENERIC + (GENERIC_THOROUGH if tier == 'thorough' else [])):
+        for m in range(0, size + 1):    # m == size: full image, round trip (C09)
+            if tier == 'quick' and not (m % 4 == 0 or m >= size - 1): continue
+            qs.append(Q(f'{fam}_nv{nv}_trunc{m:03d}', tu, 'c11_prefix.c', defs=dict({'FAM': fam, 'NV': nv, 'SIZE': size, 'M': m}, **({'USE_HASHMODEL': None} if fam == 'cm' else {})), tu_defs=({'VERIF_STUB_HASH': None} if fam == 'cm' else {}), unwind=unw,
+                        unwindset={'^harness$': 260, '^(verif_mem.*|verif_new.*|fnv.*|emit.*)$': 140}, timeout=(200 if tier == 'quick' else 900), native_vectors=50, c_defs={'VERIF_NEW_CAPN': 40}, mem_gb=16))
     return qs
